@@ -40,7 +40,10 @@ EXTERNAL_PURE = {
     ("enum", "auto"), ("typing", "Optional"),
 }
 EXTERNAL_NAMES_PURE = {"_default_backend", "_Cipher"}
-ENTROPY = {("secrets", "choice"), ("name", "_urandom"), ("os", "urandom")}
+# OS-entropy draws (allowed only in the randomised encoders / wrap methods); the user-space `random` module is
+# deliberately absent, so any use of it is an unknown call
+ENTROPY = {("secrets", "choice"), ("secrets", "token_bytes"), ("secrets", "randbelow"), ("secrets", "randbits"),
+           ("secrets", "token_hex"), ("name", "_urandom"), ("name", "urandom"), ("os", "urandom"), ("os", "getrandom")}
 
 
 def ann_immutable(a):
@@ -88,7 +91,7 @@ class ModuleInfo:
                     if node.module == "psec":
                         self.imports[a.asname or a.name] = ("psec", a.name)
                     else:
-                        self.imports[a.asname or a.name] = ("ext", a.name)
+                        self.imports[a.asname or a.name] = ("extname", (node.module or "").split(".")[-1], a.name)
             elif isinstance(node, ast.FunctionDef):
                 self.functions.add(node.name)
             elif isinstance(node, ast.ClassDef):
@@ -285,6 +288,8 @@ class Analyzer:
             base = e.value
             if isinstance(base, ast.Name) and self.info.imports.get(base.id, ("", ""))[0] == "psec":
                 return ("func", ["%s.%s" % (self.info.imports[base.id][1], e.attr)])
+            if isinstance(base, ast.Name) and env.get(base.id, ("",))[0] == "self" and e.attr in self.all_methods:
+                return ("func", ["selfmethod:" + e.attr])       # a bound method of self
             return self.own(e, env)
         if isinstance(e, ast.Subscript):
             base = e.value
@@ -320,7 +325,10 @@ class Analyzer:
             v = env.get(f.id)
             if v is not None and v[0] == "func":
                 for tgt in v[1]:
-                    fn.add("ECallPsec", tgt)
+                    if tgt.startswith("selfmethod:"):
+                        fn.add("ECallMethod", ("self",), tgt.split(":", 1)[1])
+                    else:
+                        fn.add("ECallPsec", tgt)
                 return
             if v is not None:
                 fn.add("ECallUnknown", "call of local value " + f.id)
@@ -335,6 +343,14 @@ class Analyzer:
                 fn.add("ECallPure", f.id)
             elif ("name", f.id) in ENTROPY:
                 fn.add("ECallEntropy", f.id)
+            elif self.info.imports.get(f.id, ("",))[0] == "extname":
+                _, module, name = self.info.imports[f.id]        # from module import name as f.id
+                if (module, name) in EXTERNAL_PURE or name in ("default_backend", "Cipher"):
+                    fn.add("ECallPure", "%s.%s" % (module, name))
+                elif (module, name) in ENTROPY:
+                    fn.add("ECallEntropy", "%s.%s" % (module, name))
+                else:
+                    fn.add("ECallUnknown", "%s.%s" % (module, name))
             else:
                 fn.add("ECallUnknown", f.id)
             return
@@ -345,6 +361,8 @@ class Analyzer:
                 if imp and imp[0] == "psec":
                     fn.add("ECallPsec", "%s.%s" % (imp[1], f.attr))
                     return
+                if imp and imp[0] == "extname":      # from package import module as alias; alias.f(...)
+                    imp = ("ext", imp[2])
                 if imp and imp[0] == "ext":
                     key = (imp[1].lstrip("_"), f.attr)
                     if key in EXTERNAL_PURE:
@@ -483,7 +501,10 @@ def to_coq(fns):
             if t not in seen:
                 seen.add(t)
                 es.append(t)
-        items.append('  {| fn_name := "%s"; fn_effects := [%s] |}' % (f.name, "; ".join(es)))
+        bare = [x for x in f.name.split(".") if x != "setter"][-1]
+        private = bare.startswith("_") and not bare.startswith("__")
+        items.append('  {| fn_name := "%s"; fn_method := "%s"; fn_private := %s; fn_effects := [%s] |}'
+                     % (f.name, bare, "true" if private else "false", "; ".join(es)))
     lines.append(";\n".join(items))
     lines.append("].")
     return "\n".join(lines) + "\n"
